@@ -452,71 +452,65 @@ def _update_poly(st, buf, statnames, atoms):
 
 
 def momentum_rule(ctx):
+    """BN-MOMENTUM on the path-wise expansion of forward in training mode: every effect that
+    writes a running buffer (in-place chain, augmented assignment, assignment -- directly or
+    inside a private helper that receives the buffer) must compute (1 - m) * old + m * stat with
+    one and the same m, `stat` being any expression of the inputs alone."""
+    from ..symexp import paths_of, uwalk
+
     p = ctx.p
     cls = p.find_class("BatchNorm", "nflows.transforms.normalization")
     res = RuleResult("BN-MOMENTUM", "running statistics follow new = (1 - m) * old + m * stat for one and the same m")
     fwd = cls.lookup_method("forward")
-    # names bound to batch statistics (reductions over dim 0 of inputs) in forward
-    # any local computed from the inputs alone (not from the running buffers) is a batch
-    # statistic for the purpose of the update formula: inputs.mean(0), inputs.var(0),
-    # torch.var_mean(inputs, 0), a variance assembled from moments, ...
-    statnames = set()
     x = fwd.params()[0][0]
-    changed = True
-    while changed:
-        changed = False
-        for n in ast.walk(fwd.node):
-            if not isinstance(n, ast.Assign):
-                continue
-            tl = n.targets[0]
-            names = [e.id for e in (tl.elts if isinstance(tl, ast.Tuple) else [tl]) if isinstance(e, ast.Name)]
-            used = {m.id for m in ast.walk(n.value) if isinstance(m, ast.Name)}
-            attrs_used = {attr_chain(m) for m in ast.walk(n.value) if isinstance(m, ast.Attribute)}
-            if (x in used or used & statnames) and not any(a and a.startswith("self.running") for a in attrs_used):
-                reduces = any(isinstance(c, ast.Call) and isinstance(c.func, ast.Attribute) and c.func.attr in ("mean", "var", "std", "var_mean", "sum") for c in ast.walk(n.value)) or bool(used & statnames)
-                if reduces:
-                    for nm in names:
-                        if nm not in statnames and nm != x:
-                            statnames.add(nm)
-                            changed = True
     want = {("old",): 1.0, ("m", "old"): -1.0, ("m", "stat"): 1.0}
-    found = 0
-    for buf in ("running_mean", "running_var"):
-        atoms = {
-            "old": lambda e, t, buf=buf: t == "self." + buf,
-            "m": lambda e, t: t == "self.momentum",
-            "stat": lambda e, t: isinstance(e, ast.Name) and e.id in statnames,
-        }
-        for st in ast.walk(fwd.node):
-            if not isinstance(st, (ast.Expr, ast.AugAssign, ast.Assign)):
-                continue
-            if ("self." + buf) not in norm_text(st):
-                continue
-            # only statements that write the buffer
-            writes = False
-            if isinstance(st, ast.Expr) and isinstance(st.value, ast.Call):
-                n = st.value
-                while isinstance(n, ast.Call) and isinstance(n.func, ast.Attribute) and n.func.attr.endswith("_"):
-                    n = n.func.value
-                writes = attr_chain(n) == "self." + buf and n is not st.value
-            elif isinstance(st, ast.AugAssign):
-                writes = attr_chain(st.target) == "self." + buf
-            elif isinstance(st, ast.Assign):
-                writes = any(attr_chain(t) in ("self." + buf, "self." + buf + ".data") for t in st.targets)
-            if not writes:
-                continue
-            found += 1
-            poly = _update_poly(st, buf, statnames, atoms)
-            if poly is None:
-                res.undecide("%s update `%s`" % (buf, norm_text(st)[:70]), "update is not a polynomial in (old, stat, momentum)")
-                continue
-            norm = {k: round(v, 9) for k, v in poly.items()}
-            if norm == want:
-                res.ok("%s: new = (1-m)*old + m*stat" % buf)
-            else:
-                res.fail(Finding("BN-MOMENTUM", fwd.module, fwd.qualname, st, "update of %s is %s, not (1 - momentum) * old + momentum * batch statistic" % (buf, _show(norm))))
-    if found < 2:
-        res.undecide("BatchNorm.forward", "found %d running-statistics update statements (expected 2)" % found)
+
+    def is_stat(e):
+        names = {n.id for n in uwalk(e) if isinstance(n, ast.Name)}
+        chains = {attr_chain(n) for n in uwalk(e) if isinstance(n, ast.Attribute)}
+        return x in names and not any(c and c.startswith("self.") and not c.startswith("self.eps") for c in chains)
+
+    found = {}
+    for path in paths_of(fwd.node, {"self.training": True}):
+        if path.kind != "return":
+            continue
+        for eff in path.effects:
+            for buf in ("running_mean", "running_var"):
+                atoms = {
+                    "old": lambda e, t, buf=buf: t == "self." + buf,
+                    "m": lambda e, t: t == "self.momentum",
+                    "stat": lambda e, t: isinstance(e, ast.AST) and is_stat(e),
+                }
+                st = None
+                node = eff[1]
+                if eff[0] == "expr" and isinstance(eff[2], ast.Call):
+                    n = eff[2]
+                    while isinstance(n, ast.Call) and isinstance(n.func, ast.Attribute) and n.func.attr.endswith("_") and not n.func.attr.endswith("__"):
+                        n = n.func.value
+                    if n is not eff[2] and attr_chain(n) == "self." + buf:
+                        st = ast.Expr(value=eff[2])
+                elif eff[0] == "aug" and attr_chain(eff[2]) == "self." + buf:
+                    st = ast.AugAssign(target=eff[2], op=node.op, value=eff[3])
+                elif eff[0] == "attr" and attr_chain(eff[2]) == "self" and eff[3] in (buf,):
+                    st = ast.Assign(targets=[ast.Attribute(value=ast.Name(id="self", ctx=ast.Load()), attr=buf, ctx=ast.Store())], value=eff[4])
+                if st is None:
+                    continue
+                key = (buf, norm_text(st)[:120])
+                if key in found:
+                    continue
+                poly = _update_poly(st, buf, set(), atoms)
+                found[key] = poly
+                if poly is None:
+                    res.undecide("%s update `%s`" % (buf, norm_text(st)[:70]), "update is not a polynomial in (old, stat, momentum)")
+                    continue
+                norm = {k: round(v, 9) for k, v in poly.items()}
+                if norm == want:
+                    res.ok("%s: new = (1-m)*old + m*stat" % buf)
+                else:
+                    res.fail(Finding("BN-MOMENTUM", fwd.module, fwd.qualname, node, "update of %s is %s, not (1 - momentum) * old + momentum * batch statistic" % (buf, _show(norm))))
+    bufs = {k[0] for k in found}
+    if bufs != {"running_mean", "running_var"}:
+        res.undecide("BatchNorm.forward", "running-statistics updates found for %s only (expected both buffers)" % sorted(bufs))
     return res
 
 
